@@ -33,9 +33,9 @@ var cfExp = []int{6, 8, 18}
 
 const nUsers = 4
 
-func pow10(n int) *big.Int { return new(big.Int).Exp(big.NewInt(10), big.NewInt(int64(n)), nil) }
+func pow10(n int) *big.Int   { return new(big.Int).Exp(big.NewInt(10), big.NewInt(int64(n)), nil) }
 func cfOf(d int) sdkmath.Int { return sdkmath.NewIntFromBigInt(pow10(cfExp[d])) }
-func marketID(d int) string { return denoms[d] + ":usd" }
+func marketID(d int) string  { return denoms[d] + ":usd" }
 func dec(s string) sdk.Dec   { return sdk.MustNewDecFromStr(s) }
 func bi(x int64) *big.Int    { return big.NewInt(x) }
 
@@ -72,6 +72,7 @@ var ltvPool = []string{"0.5", "0.8", "0.9", "0.75", "1.0", "0.333333333333333333
 var rfPool = []string{"0", "0.05", "0.5", "1.0", "0.025"}
 var krPool = []string{"0", "0.05", "0.01", "1.0", "0.333333333333333333"}
 var pricePool = []string{"1.0", "2.0", "1.000000000000000001", "0.333333333333333333", "10.5", "1234.567890123456789012", "0.000001", "0.999999999999999999", "25000.01", "3.141592653589793238"}
+var subUnitPricePool = []string{"0.333333333333333333", "0.999999999999999999", "1.000000000000000001", "0.5", "0.25", "0.123456789012345678", "0.7", "1.5"}
 var minBorrowPool = []string{"0", "0", "0.5", "10", "0.000000000000000001"}
 
 func (w *world) randomCfg(r *c.Rng) cfgT {
@@ -84,7 +85,11 @@ func (w *world) randomCfg(r *c.Rng) cfgT {
 		mm := hardtypes.NewMoneyMarket(denoms[d], hardtypes.NewBorrowLimit(hasMax, maxLimit, dec(c.Pick(r, ltvPool))), marketID(d), cfOf(d),
 			model, dec(c.Pick(r, rfPool)), dec(c.Pick(r, krPool)))
 		cf.mms = append(cf.mms, mm)
-		cf.prices = append(cf.prices, dec(c.Pick(r, pricePool)))
+		price := dec(c.Pick(r, pricePool))
+		if cfExp[d] == 18 && r.Chance(50) { // one unit is worth less than one ulp of value: every rounding case occurs
+			price = dec(c.Pick(r, subUnitPricePool))
+		}
+		cf.prices = append(cf.prices, price)
 	}
 	cf.minBorrow = dec(c.Pick(r, minBorrowPool))
 	return cf
@@ -131,9 +136,9 @@ func (w *world) cfgString(ctx sdk.Context) (string, string) {
 // ---------------------------------------------------------------- observation
 
 type obs struct {
-	dep, bor, bal                    [][]*big.Int
-	depIdx, borIdx                   [][]string
-	supIdx, brwIdx, accr             []string
+	dep, bor, bal                      [][]*big.Int
+	depIdx, borIdx                     [][]string
+	supIdx, brwIdx, accr               []string
 	supplied, borrowed, reserves, cash []*big.Int
 }
 
@@ -236,6 +241,9 @@ func smat(m [][]string) string {
 	}
 	return strings.Join(rows, ";")
 }
+
+// the stored deposit and borrow amounts in the format of `synced` (equal to it iff no interest is pending)
+func (o obs) syncedLike() string { return mat(o.dep) + "|" + mat(o.bor) }
 
 func (o obs) String() string {
 	return strings.Join([]string{mat(o.dep), smat(o.depIdx), mat(o.bor), smat(o.borIdx), strings.Join(o.supIdx, ","), strings.Join(o.brwIdx, ","),
@@ -345,6 +353,14 @@ func (s *seqT) prices() []sdk.Dec {
 // emit runs one keeper operation and writes the case
 func (s *seqT) emit(kind string, a, b int, coins []*big.Int, extra string, probeUser int, f func(ctx sdk.Context) error) kapp.Class {
 	w := s.w
+	if coins == nil {
+		coins = []*big.Int{bi(0), bi(0), bi(0)}
+	}
+	for d := range coins { // the keeper is called with sdk.Coins: only positive amounts exist
+		if coins[d].Sign() < 0 {
+			coins[d] = bi(0)
+		}
+	}
 	cfgS, minB := w.cfgString(s.ctx)
 	pre := w.observe(s.ctx)
 	spre := w.synced(s.ctx)
@@ -365,9 +381,48 @@ func (s *seqT) emit(kind string, a, b int, coins []*big.Int, extra string, probe
 		probe = resString(pc, perr)
 	}
 	res := resString(cls, err)
+	if cls == kapp.Panic && strings.Contains(err.Error(), "reward sync") {
+		// the incentive module's hook (not part of the hard model) refuses an interest factor below 1
+		res = "panic:hook"
+	}
 	sig := kind + "|" + res
 	if kind == "liquidate" && cls == kapp.OK {
-		sig += fmt.Sprintf("|aucs=%d", strings.Count(aucs, ":")/3)
+		sig += fmt.Sprintf("|aucs=%d|self=%v", strings.Count(aucs, ":")/3, a == b)
+	}
+	if cls == kapp.OK {
+		switch kind {
+		case "borrow": // merges with an existing borrow of the same denom / first borrow / several denoms
+			merge, n := false, 0
+			for d := range coins {
+				if coins[d].Sign() > 0 {
+					n++
+					merge = merge || pre.bor[a][d].Sign() > 0
+				}
+			}
+			sig += fmt.Sprintf("|merge=%v|n=%d|interest=%v", merge, n, spre != pre.syncedLike())
+		case "withdraw":
+			full := false
+			for d := range coins {
+				full = full || (coins[d].Sign() > 0 && coins[d].Cmp(pre.dep[a][d]) >= 0)
+			}
+			sig += fmt.Sprintf("|full=%v|hasBorrow=%v", full, !allZero(pre.bor[a]))
+		case "repay":
+			over := false
+			for d := range coins {
+				over = over || coins[d].Cmp(pre.bor[b][d]) > 0
+			}
+			sig += fmt.Sprintf("|third=%v|over=%v", a != b, over)
+		case "deposit":
+			sig += fmt.Sprintf("|first=%v", allZero(pre.dep[a]))
+		case "begin":
+			n := 0
+			for d := range denoms {
+				if pre.borrowed[d].Sign() > 0 && pre.accr[d] != "n" {
+					n++
+				}
+			}
+			sig += fmt.Sprintf("|accruing=%d", n)
+		}
 	}
 	if probe != "-" {
 		sig += "|probe=" + probe
@@ -378,8 +433,8 @@ func (s *seqT) emit(kind string, a, b int, coins []*big.Int, extra string, probe
 			fmt.Println("PANIC", s.seq, kind, a, b, coins, err)
 		}
 	}
-	if coins == nil {
-		coins = []*big.Int{bi(0), bi(0), bi(0)}
+	if kind == "begin" && cls == kapp.Panic {
+		s.out.Violation(fmt.Sprintf("seq=%d op=%d hard begin blocker panicked: %v", s.seq, s.nop, err))
 	}
 	s.out.Case(sig, "c08.op", kind, cfgS, minB, pre.String(), strconv.Itoa(a), strconv.Itoa(b), c.Ints(coins), extra, "=>",
 		res, post, aucs, spre, spost, probe)
@@ -399,7 +454,15 @@ func (s *seqT) phi(d int, now time.Time, o obs) (string, string) {
 		return "1000000000000000000", "0"
 	}
 	mm, _ := k.GetMoneyMarket(s.ctx, denoms[d])
-	rate, err := hardkeeper.CalculateBorrowRate(mm.InterestRateModel, sdk.NewDecFromBigInt(o.cash[d]), sdk.NewDecFromBigInt(o.borrowed[d]), sdk.NewDecFromBigInt(o.reserves[d]))
+	var rate sdk.Dec
+	var err error
+	if p, _ := c.Recover(func() {
+		rate, err = hardkeeper.CalculateBorrowRate(mm.InterestRateModel, sdk.NewDecFromBigInt(o.cash[d]), sdk.NewDecFromBigInt(o.borrowed[d]), sdk.NewDecFromBigInt(o.reserves[d]))
+	}); p {
+		// CalculateUtilizationRatio divides by cash + borrows - reserves = 0: the begin blocker will panic the same way
+		s.out.Note("borrow-rate-panics")
+		return "1000000000000000000", "0"
+	}
 	must(err)
 	spy, err := hardkeeper.APYToSPY(sdk.OneDec().Add(rate))
 	must(err)
@@ -426,9 +489,7 @@ func (s *seqT) beginBlock(gap int64) {
 		hard.BeginBlocker(cx, s.w.tApp.GetHardKeeper())
 		return nil
 	})
-	if cls == kapp.Panic {
-		s.out.Violation(fmt.Sprintf("seq=%d hard begin blocker panicked", s.seq))
-	}
+	_ = cls
 }
 
 func (s *seqT) deposit(u int, coins []*big.Int) kapp.Class {
@@ -535,7 +596,49 @@ func (s *seqT) randomOp() {
 	u := r.Intn(nUsers)
 	d := r.Intn(len(denoms))
 	pr := s.prices()
-	switch x := r.Intn(100); {
+	// mostly-valid choices: a user that has the record the operation needs, a denom the record holds
+	prefer := func(has func(u int) bool) int {
+		if r.Chance(12) {
+			return r.Intn(nUsers)
+		}
+		var c []int
+		for v := 0; v < nUsers; v++ {
+			if has(v) {
+				c = append(c, v)
+			}
+		}
+		if len(c) == 0 {
+			return r.Intn(nUsers)
+		}
+		return c[r.Intn(len(c))]
+	}
+	preferDenom := func(row []*big.Int) int {
+		if r.Chance(12) {
+			return r.Intn(len(denoms))
+		}
+		var c []int
+		for e := range denoms {
+			if row[e].Sign() > 0 {
+				c = append(c, e)
+			}
+		}
+		if len(c) == 0 {
+			return r.Intn(len(denoms))
+		}
+		return c[r.Intn(len(c))]
+	}
+	x := r.Intn(100)
+	switch {
+	case x >= 22 && x < 50:
+		u = prefer(func(v int) bool { return !allZero(o.dep[v]) })
+		d = preferDenom(o.cash)
+	case x >= 50 && x < 66:
+		u = prefer(func(v int) bool { return !allZero(o.dep[v]) })
+		d = preferDenom(o.dep[u])
+	case x >= 80 && x < 92:
+		u = prefer(func(v int) bool { return !allZero(o.bor[v]) && !allZero(o.dep[v]) })
+	}
+	switch {
 	case x < 22: // deposit
 		coins := one(d, s.genAmount(d, o.bal[u][d]))
 		if r.Chance(25) {
@@ -564,10 +667,35 @@ func (s *seqT) randomOp() {
 			if best == nil {
 				amt = x0
 				s.out.Note("borrow-boundary:none-accepted")
+			} else if r.Chance(35) && best.Cmp(bi(4)) > 0 {
+				// split: borrow about half now, then solve again for the largest accepted remainder
+				// (the two routines value existing + new separately, the liquidation values the merged borrow)
+				half := new(big.Int).Div(best, bi(2))
+				if r.Bool() {
+					half = r.BigBelow(best)
+				}
+				if half.Sign() > 0 && s.borrow(u, one(d, half)) == kapp.OK {
+					o = w.observe(s.ctx)
+					x1 := amountFor(s.headroom(u, o), d, pr[d])
+					best2 := s.largestAccepted(x1, 3, func(x *big.Int) bool {
+						return s.try(func(cx sdk.Context) error { return k.Borrow(cx, w.users[u], coinsOf(one(d, x))) })
+					})
+					if best2 != nil {
+						amt = best2
+						s.out.Note("borrow-boundary:split-solved")
+					} else {
+						amt = x1
+					}
+				} else {
+					amt = best
+				}
 			} else {
 				amt = new(big.Int).Add(best, bi(c.Pick(r, []int64{0, 0, 0, 1, -1})))
 				s.out.Note("borrow-boundary:solved")
 			}
+		}
+		if amt.Sign() <= 0 && r.Chance(80) {
+			amt = s.genAmount(d, o.cash[d])
 		}
 		coins := one(d, amt)
 		if r.Chance(10) {
@@ -617,16 +745,11 @@ func (s *seqT) randomOp() {
 		}
 		s.withdraw(u, coins)
 	case x < 80: // repay by owner or third party
-		owner := u
-		for t := 0; t < 4 && allZero(o.bor[owner]); t++ {
-			owner = r.Intn(nUsers)
-		}
+		owner := prefer(func(v int) bool { return !allZero(o.bor[v]) })
+		d = preferDenom(o.bor[owner])
 		sender := owner
 		if r.Chance(35) {
 			sender = r.Intn(nUsers)
-		}
-		for t := 0; t < 3 && o.bor[owner][d].Sign() == 0; t++ {
-			d = r.Intn(len(denoms))
 		}
 		owed := o.bor[owner][d]
 		var amt *big.Int
@@ -656,9 +779,6 @@ func (s *seqT) randomOp() {
 		s.repay(sender, owner, coins)
 	case x < 92: // liquidation attempt
 		borrower := u
-		for t := 0; t < 4 && allZero(o.bor[borrower]); t++ {
-			borrower = r.Intn(nUsers)
-		}
 		keeper := r.Intn(nUsers)
 		s.liquidate(keeper, borrower)
 	default: // price move
@@ -718,6 +838,14 @@ func (w *world) seq(out *c.Out, seq int, r *c.Rng) {
 		w.scenarioF4(out, r)
 		return
 	}
+	if seq == 2 {
+		w.scenarioDiv0(out, r)
+		return
+	}
+	if seq == 3 {
+		w.pureSync(out, r, c.Budget(3000, 200000))
+		return
+	}
 	s := w.newSeq(out, seq, r)
 	w.fund(s.ctx, r)
 	w.applyCfg(s.ctx, w.randomCfg(r))
@@ -727,7 +855,7 @@ func (w *world) seq(out *c.Out, seq int, r *c.Rng) {
 		l := r.Intn(nUsers - 1)
 		coins := make([]*big.Int, len(denoms))
 		for d := range denoms {
-			coins[d] = new(big.Int).Mul(pow10(cfExp[d]), bi(r.Range(1, 5000)))
+			coins[d] = new(big.Int).Mul(pow10(cfExp[d]), bi(r.Range(1, 200000)))
 		}
 		s.deposit(l, coins)
 	}
@@ -755,7 +883,7 @@ func (w *world) scenarioF5(out *c.Out, r *c.Rng) {
 	w.applyCfg(s.ctx, cf)
 	s.beginBlock(0)
 	s.deposit(1, []*big.Int{new(big.Int).Mul(pow10(6), bi(1000)), bi(0), bi(0)}) // lender of dena
-	s.deposit(0, []*big.Int{bi(0), new(big.Int).Mul(pow10(8), bi(2)), bi(0)})      // 2 denb at 1.0, LTV 0.5: borrowing power 1.0
+	s.deposit(0, []*big.Int{bi(0), new(big.Int).Mul(pow10(8), bi(2)), bi(0)})    // 2 denb at 1.0, LTV 0.5: borrowing power 1.0
 	s.borrow(0, one(0, bi(500000)))
 	s.borrow(0, one(0, bi(500000)))
 	s.liquidate(2, 0)
@@ -779,11 +907,11 @@ func (w *world) scenarioF4(out *c.Out, r *c.Rng) {
 	s.beginBlock(0)
 	e6 := pow10(6)
 	e8 := pow10(8)
-	s.deposit(0, one(0, new(big.Int).Mul(e6, bi(1000))))  // lender: 1000 dena
-	s.deposit(1, one(1, new(big.Int).Mul(e8, bi(100))))   // small borrower: collateral 100 denb
-	s.deposit(2, one(1, new(big.Int).Mul(e8, bi(2000))))  // large borrower: collateral 2000 denb
-	s.borrow(1, one(0, new(big.Int).Mul(e6, bi(10))))     // 10 dena
-	s.borrow(2, one(0, new(big.Int).Mul(e6, bi(990))))    // the rest of the cash
+	s.deposit(0, one(0, new(big.Int).Mul(e6, bi(1000)))) // lender: 1000 dena
+	s.deposit(1, one(1, new(big.Int).Mul(e8, bi(100))))  // small borrower: collateral 100 denb
+	s.deposit(2, one(1, new(big.Int).Mul(e8, bi(2000)))) // large borrower: collateral 2000 denb
+	s.borrow(1, one(0, new(big.Int).Mul(e6, bi(10))))    // 10 dena
+	s.borrow(2, one(0, new(big.Int).Mul(e6, bi(990))))   // the rest of the cash
 	s.beginBlock(365 * 86400)
 	s.beginBlock(365 * 86400)
 	s.w.setPrice(s.ctx, 1, dec("0.4")) // collateral falls: the large borrower is under water
@@ -793,6 +921,126 @@ func (w *world) scenarioF4(out *c.Out, r *c.Rng) {
 	s.beginBlock(86400)
 	s.withdraw(0, one(0, bi(1)))
 	out.Note("scenario:f4")
+}
+
+// Division by zero in the begin blocker (findings/C08-accrue-div-zero.md): make cash + borrows = reserves with
+// borrows > 0.  A loan accrues interest (reserves r > 0) and is repaid; every supplier withdraws, leaving exactly the
+// reserves in the module account; ValidateBorrow's "reserves are not borrowable" check is skipped when the available
+// amount is exactly zero (Coins.IsAnyGT ignores zero amounts), so a new borrow of x <= r is paid out of the reserves;
+// then cash + borrows - reserves = 0 and CalculateUtilizationRatio divides by it in the next block.
+// Rounding dust decides whether cash ends exactly at the reserves: a few loan sizes are tried.
+func (w *world) scenarioDiv0(out *c.Out, r *c.Rng) {
+	e6, e8 := pow10(6), pow10(8)
+	for v := int64(0); v < 40; v++ {
+		s := w.newSeq(out, 2, r)
+		w.fund(s.ctx, c.NewRng(1))
+		var cf cfgT
+		model := hardtypes.NewInterestRateModel(dec("0.05"), dec("1.0"), dec("0.8"), dec("2"))
+		for d := range denoms {
+			cf.mms = append(cf.mms, hardtypes.NewMoneyMarket(denoms[d], hardtypes.NewBorrowLimit(false, sdk.ZeroDec(), dec("0.8")), marketID(d), cfOf(d), model, dec("0.1"), dec("0.05")))
+		}
+		cf.prices = []sdk.Dec{dec("1.0"), dec("1.0"), dec("1.0")}
+		cf.minBorrow = dec("0")
+		w.applyCfg(s.ctx, cf)
+		s.beginBlock(0)
+		s.deposit(0, one(0, new(big.Int).Mul(e6, bi(1000))))                             // supplier of dena
+		s.deposit(1, one(1, new(big.Int).Mul(e8, bi(5000))))                             // borrower's collateral
+		s.borrow(1, one(0, new(big.Int).Add(new(big.Int).Mul(e6, bi(500)), bi(v*7919)))) // the loan
+		s.beginBlock(30 * 86400)                                                         // interest: reserves > 0
+		s.repay(1, 1, one(0, new(big.Int).Mul(e6, bi(100000))))                          // everything owed
+		s.withdraw(0, one(0, new(big.Int).Mul(e6, bi(100000))))                          // the supplier leaves
+		o := w.observe(s.ctx)
+		if o.borrowed[0].Sign() != 0 || o.cash[0].Cmp(o.reserves[0]) != 0 || o.reserves[0].Sign() == 0 {
+			out.Note("scenario:div0:variant-has-dust")
+			continue
+		}
+		s.deposit(2, one(1, new(big.Int).Mul(e8, bi(100)))) // a newcomer's collateral
+		s.borrow(2, one(0, o.reserves[0]))                  // borrows the reserves (available = 0 is not checked)
+		s.beginBlock(6)                                     // cash + borrows - reserves = 0: begin blocker panics
+		out.Note("scenario:div0:reached")
+		return
+	}
+	out.Note("scenario:div0:not-reached")
+}
+
+// Pure correspondence of the four sync formulas (SyncSupplyInterest: mul-then-quo, added only when positive;
+// SyncBorrowInterest, GetSyncedDeposit, GetSyncedBorrow: quo-then-mul, negative interest panics) on chosen
+// (amount, user factor, global factor) triples, including exact factor ratios where the two compositions differ by a
+// unit.  The records are written into a discarded context only to call the keeper's own routines: this stream ties
+// arithmetic, no property predicate is evaluated on it.
+func (w *world) pureSync(out *c.Out, r *c.Rng, n int) {
+	k := w.tApp.GetHardKeeper()
+	u := w.users[0]
+	factors := []string{"1.0", "1.5", "3.0", "2.0", "1.000000000000000001", "1.333333333333333333", "2.999999999999999999", "7.25", "1.1"}
+	for i := 0; i < n; i++ {
+		d := r.Intn(len(denoms))
+		var a *big.Int
+		switch r.Intn(5) {
+		case 0:
+			a = bi(r.Range(1, 12))
+		case 1:
+			a = new(big.Int).Mul(pow10(r.Intn(22)), bi(r.Range(1, 999)))
+		default:
+			a = new(big.Int).Add(r.BigBits(80), bi(1))
+		}
+		ui := dec(c.Pick(r, factors))
+		if r.Chance(40) {
+			ui = sdk.OneDec().Add(sdk.NewDecFromBigIntWithPrec(r.BigBelow(pow10(18)), 18).MulInt64(r.Range(0, 3)))
+		}
+		if r.Chance(2) {
+			ui = sdk.ZeroDec()
+		}
+		var g sdk.Dec
+		switch r.Intn(8) {
+		case 0:
+			g = ui
+		case 1:
+			g = ui.MulInt64(r.Range(2, 3))
+		case 2:
+			g = ui.Add(sdk.SmallestDec().MulInt64(r.Range(-2, 2)))
+		case 3:
+			g = dec(c.Pick(r, factors))
+		case 4: // a decreased factor
+			g = ui.Mul(dec(c.Pick(r, []string{"0.5", "0.999999999999999999", "0.9"})))
+		default:
+			g = ui.Add(sdk.NewDecFromBigIntWithPrec(r.BigBelow(pow10(18)), 18).MulInt64(r.Range(0, 2)))
+		}
+		if g.IsNegative() {
+			g = sdk.ZeroDec()
+		}
+		cctx, _ := w.base.CacheContext()
+		coins := sdk.NewCoins(sdk.NewCoin(denoms[d], sdkmath.NewIntFromBigInt(a)))
+		k.SetSupplyInterestFactor(cctx, denoms[d], g)
+		k.SetBorrowInterestFactor(cctx, denoms[d], g)
+		k.SetDeposit(cctx, hardtypes.NewDeposit(u, coins, hardtypes.SupplyInterestFactors{hardtypes.NewSupplyInterestFactor(denoms[d], ui)}))
+		k.SetBorrow(cctx, hardtypes.NewBorrow(u, coins, hardtypes.BorrowInterestFactors{hardtypes.NewBorrowInterestFactor(denoms[d], ui)}))
+		res := make([]string, 4)
+		run := func(i int, f func() sdkmath.Int) {
+			var v sdkmath.Int
+			if p, _ := c.Recover(func() { v = f() }); p {
+				res[i] = "p"
+			} else {
+				res[i] = v.String()
+			}
+		}
+		run(2, func() sdkmath.Int { dp, _ := k.GetSyncedDeposit(cctx, u); return dp.Amount.AmountOf(denoms[d]) })
+		run(3, func() sdkmath.Int { br, _ := k.GetSyncedBorrow(cctx, u); return br.Amount.AmountOf(denoms[d]) })
+		run(0, func() sdkmath.Int {
+			k.SyncSupplyInterest(cctx, u)
+			dp, _ := k.GetDeposit(cctx, u)
+			return dp.Amount.AmountOf(denoms[d])
+		})
+		run(1, func() sdkmath.Int {
+			k.SyncBorrowInterest(cctx, u)
+			br, _ := k.GetBorrow(cctx, u)
+			return br.Amount.AmountOf(denoms[d])
+		})
+		sig := ""
+		if i < 400 {
+			sig = fmt.Sprintf("cmp=%d|%s", g.BigInt().Cmp(ui.BigInt()), strings.Join([]string{c.B(res[0] == "p"), c.B(res[1] == "p"), c.B(res[2] == "p"), c.B(res[0] != res[2])}, ""))
+		}
+		out.Case(sig, "c08.sync", a.String(), ui.BigInt().String(), g.BigInt().String(), "=>", res[0], res[1], res[2], res[3])
+	}
 }
 
 func must(err error) {
@@ -805,6 +1053,18 @@ func main() {
 	out := c.NewOut(c.OutPath())
 	defer out.Close()
 	r := c.NewRng(c.Seed())
-	n := c.Budget(160, 4000)
-	kapp.RunSeqs(n, c.Workers(), r, mkWorld, func(w *world, seq int, r *c.Rng) { w.seq(out, seq, r) })
+	n := c.Budget(400, 4000)
+	// app.NewTestApp writes the global sdk.Config (SetSDKConfig) on every call: build every worker's world
+	// before any sequence runs, one after the other, so that no keeper reads the config concurrently.
+	workers := c.Workers()
+	if n < workers {
+		workers = n
+	}
+	worlds := make(chan *world, workers)
+	t0 := time.Now()
+	for i := 0; i < workers; i++ {
+		worlds <- mkWorld()
+	}
+	out.NoteN("setup-ms", int(time.Since(t0).Milliseconds()))
+	kapp.RunSeqs(n, workers, r, func() *world { return <-worlds }, func(w *world, seq int, r *c.Rng) { w.seq(out, seq, r) })
 }
